@@ -242,11 +242,27 @@ def vseq(ctx, trace, what):
     return acc, rej, r, int(mm.group(2))
 
 
-def judge(ctx, runs, streams_by_script, what):
+def confirm(ctx, exe, script_text, tag):
+    """R4: a rejection is re-run once, alone, before it is reported; returns True when it repeats"""
+    ip = ctx.path("confirm_%s.txt" % tag)
+    with open(ip, "w") as f:
+        f.write(script_text)
+    out = ctx.path("confirm_%s.ndjson" % tag)
+    rc, err = vf.run_hx(exe, ["c09"], out, stdin_path=ip, timeout=1200)
+    if rc != 0:
+        return True
+    acc, rej, r, nd = vseq(ctx, out, "confirm " + tag)
+    return not acc
+
+
+def judge(ctx, runs, exe, what):
     """TLC judges every trace; rejections become VIOLATION lines with a replay script"""
     good = []
     for k, ip, b, out, rc, err in runs:
         if rc != 0:
+            rc2, err2 = vf.run_hx(exe, ["c09"], ctx.path("again_%02d.ndjson" % k), stdin_path=ip, timeout=3000)
+            if rc2 == 0:
+                raise vf.Infra("hx_link aborted rc=%d on %s but not when run again: %s" % (rc, ip, err[-800:]))
             ctx.violation("hx_link aborted rc=%d on %s: %s" % (rc, os.path.basename(ip), err[-1500:]), replay_src=ip)
         else:
             good.append((k, ip, b, out))
@@ -283,6 +299,8 @@ def judge(ctx, runs, streams_by_script, what):
                 rp = ctx.path("rej_%02d_%d_%d.txt" % (k, base + sx, wn))
                 with open(rp, "w") as f:
                     f.write(script_of(ip, base + sx, wn))
+                if not confirm(ctx, exe, script_of(ip, base + sx, wn), "%02d_%d_%d" % (k, base + sx, wn)):
+                    raise vf.Infra("rejection did not repeat when the receiver run was executed again alone (%s): %s" % (rp, (why[-1] if why else "")[:300]))
                 ctx.violation("loss/concealment obligation rejected by LinkTrace: %s | event %s" % ((why[-1] if why else "")[:400], ev[:400]), replay_src=rp)
 
 
@@ -360,7 +378,7 @@ def run(ctx):
     var = vf.build_variant("hko")
     exe = vf.build_hx(var, "link.c")
     runs = run_streams(ctx, exe, streams, "c09")
-    judge(ctx, runs, None, "C09")
+    judge(ctx, runs, exe, "C09")
     # a slice of the runs again under the sanitizer build (memory safety of the concealment paths)
     var2 = vf.build_variant("hk")
     exe2 = vf.build_hx(var2, "link.c")
